@@ -233,7 +233,7 @@ pub fn run(fns: &Arc<StressFns>, ctl: &[u8], render: bool) -> Outcome {
             Mutator::PushBurst => mk_list_free(cfg.n, 1 + round % 3),
             _ => mk_list(cfg.n),
         };
-        host::set_clone_spin(if cfg.mutator == Mutator::PushBurst { [200u32, 2000, 20000][round % 3] } else { 0 });
+        host::set_clone_spin(if cfg.mutator == Mutator::PushBurst { [30u32, 300, 3000][round % 3] } else { 0 });
         let b = mk_list(cfg.n);
         let len0 = a.len();
         let blen0 = b.len();
